@@ -35,6 +35,18 @@ def main():
             only = next(it)
     sd = os.path.join(VERIF, "seeded", name)
     meta = json.load(open(os.path.join(sd, "meta.json")))
+    head = subprocess.run(["git", "-C", "/repo", "rev-parse", "--short", "HEAD"], capture_output=True, text=True).stdout.strip()
+    if meta.get("evaluated_at_repo") == head and meta.get("my_checks") and not os.environ.get("SEED_FORCE"):
+        print(name, "already evaluated at", head, "- skipped", flush=True)
+        return
+    lockf = os.path.join(VERIF, "build", f"seedlock_{name}")
+    os.makedirs(os.path.join(VERIF, "build"), exist_ok=True)
+    try:
+        fd = os.open(lockf, os.O_CREAT | os.O_EXCL | os.O_WRONLY)
+        os.close(fd)
+    except FileExistsError:
+        print(name, "is being evaluated by another stream - skipped", flush=True)
+        return
     if props is None:
         props = [meta["property"]]
     wt = f"/tmp/mut-{name}"
@@ -51,7 +63,7 @@ def main():
     try:
         for p in props:
             env = dict(os.environ, VERIF_REPO=wt, VERIF_BUILD=broot, VERIF_EVIDENCE=os.path.join(broot, "evidence"),
-                       VERIF_MEM_GB=os.environ.get("VERIF_MEM_GB", "20"), VERIF_FIRST_VIOLATION="1")
+                       VERIF_MEM_GB=os.environ.get("VERIF_MEM_GB", "20"), VERIF_FIRST_VIOLATION="1", VERIF_TWIN_REPLAY_MAX_S="0")
             cmd = [os.path.join(VERIF, "check"), p, "--tier", tier, "--jobs", jobs]
             if only:
                 cmd += ["--only", only]
@@ -76,7 +88,14 @@ def main():
         subprocess.run(["git", "-C", "/repo", "worktree", "remove", "--force", wt], capture_output=True)
         shutil.rmtree(wt, ignore_errors=True)
         shutil.rmtree(broot, ignore_errors=True)
+    meta = json.load(open(os.path.join(sd, "meta.json")))
+    meta.pop("my_checks", None)
     meta.setdefault("my_checks", {}).update(res)
+    meta["evaluated_at_repo"] = head
+    try:
+        os.remove(lockf)
+    except OSError:
+        pass
     meta["detected"] = any(v["exit"] == 1 and v["violations"] for v in meta["my_checks"].values())
     json.dump(meta, open(os.path.join(sd, "meta.json"), "w"), indent=1)
 
